@@ -596,6 +596,10 @@ func faultScenario(kind, fault string, rng *rand.Rand) {
 				tr.Emit("fx.end", "ex", ex, "sc", sc, "kind", k, "err", es)
 			}()
 		}
+		// ... and a small exchange that arrives while the large ones are blocked still ends by its own deadline
+		time.Sleep(250 * time.Millisecond)
+		wg.Add(1)
+		go func() { defer wg.Done(); one(400*time.Millisecond, "any") }()
 		wg.Wait()
 	case "sndbuf":
 		// the peer accepts and never reads; queries are large: a blocking write must not outlive the deadline
